@@ -5,7 +5,7 @@ import networkx as nx
 from . import mol as M
 
 
-def gen_stereo_molecule(rng, n_db=None, n_chiral=None, max_extra=6, p_ring=0.0):
+def gen_stereo_molecule(rng, n_db=None, n_chiral=None, max_extra=6, p_ring=0.0, p_tail=0.0):
     """tree-shaped molecule; -> (g, stereo) with stereo = [dict(a1,a2,l1,l2,kind)], chiral = {atom: 'R'|'S'}"""
     n_db = n_db if n_db is not None else rng.randint(1, 3)
     n_chiral = n_chiral if n_chiral is not None else rng.choice([0, 0, 1, 2])
@@ -65,6 +65,16 @@ def gen_stereo_molecule(rng, n_db=None, n_chiral=None, max_extra=6, p_ring=0.0):
             for x, y in zip(ring, ring[1:] + ring[:1]):
                 g.add_edge(x, y, order=1.5)
             g.add_edge(sn, ring[0], order=1)
+    if p_tail and rng.random() < p_tail:
+        # a long saturated tail (decyl ... dotetracontyl): as a fragment of its own it has 31 ... 127 atoms with its
+        # hydrogens, so that whatever is listed after it gets node indices around 32, 64, 128
+        cands = [n for n in g if M.free(g, n) >= 1 and n not in marked and not any(nb in marked for nb in g[n]) and g.nodes[n]['element'] == 'C']
+        if cands:
+            a = rng.choice(cands)
+            first = prev_ = add('C', a)
+            for _ in range(rng.choice([8, 9, 10, 10, 11, 12, 40, 41, 42]) - 1):
+                prev_ = add('C', prev_)
+            g.graph['tail_bond'] = (a, first)
     if rng.random() < p_ring:
         # a stereo double bond inside a large ring: one of its atoms is bonded (single, unmarked bond) to a far-away
         # unmarked atom, as in C1CCCCC/C=C1/F; the slash-marked bonds stay ordinary chain bonds (checked by the caller)
